@@ -69,6 +69,12 @@ def getline (file : Bytes) (cap : Option Nat) : GetLine :=
   if l = [] then ⟨-1, [], size0, file⟩
   else ⟨l.length, l ++ [0], growCap l.length size0 (l.length + 1), file.drop l.length⟩
 
+/-- the unrepaired `getline` (fgets + strlen): after the first `fgets` into a `size`-byte buffer
+    it inspects `(*line_p)[len - 1]` with `len = strlen(chunk)`; this is that index -/
+def getlineOldIndex (file : Bytes) (size : Nat) : Int :=
+  let chunk := (nextLine file).take (size - 1)
+  ((cstr chunk).length : Int) - 1
+
 /-! ## mbsnrtowcs -/
 
 /-- result of `mbrtowc(w, s, n, ps)` on the bytes `s[0..n)` -/
@@ -112,6 +118,10 @@ def mbsnrtowcs (mbr : Bytes → MbRes) (src : Bytes) (srclen : Nat) (dst : Optio
     let r := mbsLoop mbr true d.length (srclen + 1) (src.take srclen) 0 0 []
     let w := r.2.2.reverse
     ⟨r.1, r.2.1, w ++ d.drop w.length⟩
+
+/-- the unrepaired code assigned `*src_p` also when `dst == NULL`: the value it stored -/
+def mbsnrtowcsOldSrcp (mbr : Bytes → MbRes) (src : Bytes) (srclen : Nat) : Option Nat :=
+  (mbsLoop mbr false 0 (srclen + 1) (src.take srclen) 0 0 []).2.1
 
 /-- a model of glibc's `mbrtowc` in a UTF-8 locale (used by the driver only; the theorems take
     `mbr` as a parameter) -/
